@@ -2,7 +2,7 @@
 use std::borrow::Borrow;
 use std::marker::PhantomData;
 
-pub const CAP: usize = 4;
+pub const CAP: usize = 2;
 
 #[derive(Debug)]
 pub struct HashMap<K, V, S = ()> {
@@ -15,7 +15,7 @@ impl<K: Clone, V: Clone, S> Clone for HashMap<K, V, S> {
 }
 
 impl<K, V, S> Default for HashMap<K, V, S> {
-	fn default() -> Self { HashMap { items: [None, None, None, None], _s: PhantomData } }
+	fn default() -> Self { HashMap { items: [None, None], _s: PhantomData } }
 }
 
 pub enum Entry<'a, K, V, S> {
